@@ -205,6 +205,9 @@ func C36LessTerm(f *Facts, dir string) (term, src string, ok bool) {
 	return term, src, true
 }
 
+// C36PinnedLessSrc is the body of entitySorter.Less on the pinned tree (defect D8).
+const C36PinnedLessSrc = "{ a, b := e[i], e[j] return a.GetOffset() < b.GetOffset() || a.GetLength() > b.GetLength() }"
+
 // C36LessFacts emits `def less (aOff aLen bOff bLen : Int) : Bool` (ill-typed when untranslatable).
 func C36LessFacts(f *Facts, dir string) {
 	term, src, ok := C36LessTerm(f, dir)
@@ -216,4 +219,5 @@ func C36LessFacts(f *Facts, dir string) {
 		f.Raw("def less (aOff aLen bOff bLen : Int) : Bool := missing_fact_less -- entitySorter.Less not found or not translatable")
 	}
 	f.Str("lessSrc", src, "source of the comparator")
+	f.Bool("lessIsPinned", src == C36PinnedLessSrc, "the comparator is the pinned tree's expression (defect D8, known finding)")
 }
